@@ -326,6 +326,8 @@ def harnesses(tier):
         for stat in STATS:
             shape = (2, 2) if stat in ('median', 'percentile') else (2, 3)
             for sub in (['none', 'empty'], ['mask'], ['range'], ['slice', 'pixel']):
+                if stat in ('median', 'percentile') and sub[0] in ('range', 'slice'):
+                    continue          # (sorting-network terms are expensive: these combinations run in the thorough tier)
                 hs.append(Harness('statistic %s %s %s' % (shape, stat, '+'.join(sub)), body_statistic,
                                   params=dict(shape=shape, stats=[stat], subsets=sub, views=QV[shape],
                                               positives=(False, True) if sub[0] in ('none', 'slice') else (False,),
